@@ -542,6 +542,14 @@ func Build(a *App) *Built {
 func (b *Built) Run(argv []string) *Obs {
 	o := b.o
 	*o = Obs{Bind: map[int]Binding{}, SetBy: map[int]map[string]bool{}, PanVals: map[string]*PanicValue{}}
+	for _, rs := range b.all { // the recorders only log what this Run binds
+		for _, rc := range rs.o {
+			rc.Vals, rc.Clears = nil, 0
+		}
+		for _, rc := range rs.a {
+			rc.Vals, rc.Clears = nil, 0
+		}
+	}
 	if b.BuildPan != nil {
 		o.Pan = b.BuildPan
 		return o
